@@ -123,9 +123,14 @@ end RP.C01
 namespace RP.C01
 open RP.Bits RP.Eval RP.Spec.Poker
 
+theorem nk_table : ∀ c, c < 9 → RP.Gen.nKickers.getD c 0 =
+    (if c = 0 then 4 else if c = 1 then 3 else if c = 2 then 1 else if c = 3 then 2 else if c = 7 then 1 else 0) := by
+  decide
+
 theorem variantIdx_lt (cfg : Cfg) : ∀ c, c < 9 → variantIdx cfg c < 16 := by
   cases cfg <;> decide
 
+attribute [local irreducible] kd variantIdx posOfCat in
 /-- strictly smaller key ⇒ strictly smaller translated value -/
 theorem key_lt_imp (cfg : Cfg) (a b : Rk × Nat) (ha : wfRes a = true) (hb : wfRes b = true)
     (h : keyA cfg a < keyA cfg b) : specOf cfg a < specOf cfg b := by
@@ -142,26 +147,24 @@ theorem key_lt_imp (cfg : Cfg) (a b : Rk × Nat) (ha : wfRes a = true) (hb : wfR
   by_cases hcc : c = c'
   · subst hcc
     -- same category: fields, then kicker masks
-    have m1 : ∀ n, popW 13 k = n → popW 13 k' = n → k < k' → kd 13 k n < kd 13 k' n := by
-      intro n e1 e2 hlt
-      exact kd_mono 13 (by decide) k k' n e1 e2 (by rw [Nat.mod_eq_of_lt hk, Nat.mod_eq_of_lt hk']; exact hlt)
-    have m0 : ∀ n, k = k' → kd 13 k n = kd 13 k' n := by intro n e; rw [e]
-    have a1 := m1 1; have a2 := m1 2; have a3 := m1 3; have a4 := m1 4
-    have e1 := m0 1; have e2 := m0 2; have e3 := m0 3; have e4 := m0 4
-    have b1 := (kd_bounds k 13 (by decide) 1).1
-    have b2 := (kd_bounds k 13 (by decide) 2).1
-    have b3 := (kd_bounds k 13 (by decide) 3).1
-    have b4 := (kd_bounds k 13 (by decide) 4).1
-    have b1' := (kd_bounds k' 13 (by decide) 1).1
-    have b2' := (kd_bounds k' 13 (by decide) 2).1
-    have b3' := (kd_bounds k' 13 (by decide) 3).1
-    have b4' := (kd_bounds k' 13 (by decide) 4).1
-    simp only [Nat.reducePow] at b1 b2 b3 b4 b1' b2' b3' b4'
-    clear ba bb hidx m1 m0
+    have hpp : popW 13 k' = popW 13 k := by rw [hp, hp']
+    have mono : k < k' → kd 13 k (popW 13 k) < kd 13 k' (popW 13 k) := fun hlt =>
+      kd_mono 13 (by decide) k k' (popW 13 k) rfl hpp (by rw [Nat.mod_eq_of_lt hk, Nat.mod_eq_of_lt hk']; exact hlt)
+    have bA := (kd_bounds k 13 (by decide) (popW 13 k)).1
+    have bB := (kd_bounds k' 13 (by decide) (popW 13 k)).1
+    have L : r1 < r1' ∨ (r1 = r1' ∧ (r2 < r2' ∨ (r2 = r2' ∧ k < k'))) := by omega
+    clear ba bb hidx hpp hp' h
+    rw [nk_table c hc] at hp
+    rw [hp] at mono bA bB
+    clear hp
     rcases nine_cases hc with e | e | e | e | e | e | e | e | e <;> subst e <;>
-      simp [RP.Gen.nKickers, cTwoPair, cFullHouse] at hp hp' hr hr' <;>
-      simp [specOf, cHighCard, cOnePair, cTwoPair, cThreeOAK, cFullHouse, cFourOAK] <;>
-      omega
+      simp only [cTwoPair, cFullHouse, Nat.reduceEqDiff, false_or, if_true, if_false, Nat.reducePow] at hr hr' mono bA bB <;>
+      simp only [specOf, cHighCard, cOnePair, cTwoPair, cThreeOAK, cFullHouse, cFourOAK, Nat.reduceEqDiff, if_true, if_false, Nat.reducePow] <;>
+      (rcases L with L | ⟨L1, L | ⟨L2, L3⟩⟩
+       · omega
+       · omega
+       · have := mono L3
+         omega)
   · have hlt : variantIdx cfg c < variantIdx cfg c' := by
       have hne : variantIdx cfg c ≠ variantIdx cfg c' := fun e => hcc (hidx.2 e)
       omega
